@@ -12,7 +12,10 @@ Theorem C17_source_facts :
   only_rename_writes_target = true /\ rename_after_closed_with_block = true /\ remove_tmp_in_finally = true /\
   unreadable_file_is_empty = true /\ entries_imported_individually = true /\ cfg_precedes_file = true /\
   given_set_for_configured_values = true /\ save_deferred_while_writes_pending = true /\
-  init_saves_after_loading = true /\ callback_exceptions_swallowed = true.
+  init_saves_after_loading = true /\ callback_exceptions_swallowed = true /\
+  array_import_checks_kind_and_length = true /\ tuple_import_checks_kind_and_length = true /\
+  struct_import_admits_missing_optional = true /\ scaled_import_integers_only = true /\
+  blob_import_strict_base64 = true /\ int_and_blob_import_without_limits = true.
 Proof. repeat split; reflexivity. Qed.
 
 (* one save, any fault at any file-system operation: the stored file afterwards (that is also: at the crash point)
